@@ -118,18 +118,32 @@ pub fn lockstep<S: Sch>(cfg: &Cfg, history: &[Op]) -> Verdict {
 
 /// the verifier's sponge was initialised with different prior data: not accepted
 pub fn prestate<S: Sch>(cfg: &Cfg, negate: bool) -> Verdict {
+    prestate_mode::<S>(cfg, negate, false)
+}
+
+/// `concrete`: the two pre-states are two different concrete absorbs. The harness's byte-squeezing tape (the
+/// column positions of the linear-code schemes) is a function of the concrete transcript skeleton only, so a
+/// proof whose only transcript-dependent part is the set of opened positions is bound to a *concrete*
+/// pre-state in this model, not to a symbolic one.
+pub fn prestate_mode<S: Sch>(cfg: &Cfg, negate: bool, concrete: bool) -> Verdict {
     let mut w = match catch(|| build::<S>(cfg)) {
         Ok(Ok(w)) => w,
         _ => return Verdict::Discard("honest phase failed".into()),
     };
-    let (t1, t2) = (sym("tr"), sym("tr2"));
-    if !assume_ne(t1, t2, "same pre-state") {
+    let (t1, t2) = if concrete { (SF::from(1u64), SF::from(2u64)) } else { (sym("tr"), sym("tr2")) };
+    if !concrete && !assume_ne(t1, t2, "same pre-state") {
         return Verdict::Hold;
     }
     let mut sp_p = RoSponge::new(&1);
-    sp_p.absorb(&t1);
     let mut sp_v = RoSponge::new(&1);
-    sp_v.absorb(&t2);
+    if concrete {
+        // raw bytes: they are part of the transcript skeleton the byte-squeezing tape depends on
+        sp_p.absorb(&b"pre-state A".to_vec());
+        sp_v.absorb(&b"pre-state B".to_vec());
+    } else {
+        sp_p.absorb(&t1);
+        sp_v.absorb(&t2);
+    }
     let idx = w.at_point(0);
     let proof = match catch(|| w.open(&idx, 0, &mut sp_p)) {
         Ok(Ok(p)) => p,
